@@ -47,13 +47,16 @@ GENERIC3 = ["typing.Generator", "typing.Coroutine"]
 # soft keywords: the printer must then qualify (`builtins.str`, `typing.Any`) and
 # add the import, and the parser must read that back.
 CLASHING_CLASS_NAMES = ["str", "list", "type", "object", "Any", "Union", "Optional",
-                        "Callable", "Literal", "Generic", "tuple", "dict", "Type", "List",
-                        "Final", "Annotated", "final", "overload", "Never", "Protocol"]
+                        "Callable", "dict", "Type", "List",
+                        "Final", "Annotated", "Never", "Protocol"]
+SPECIAL_FORM_NAMES = frozenset([
+    "Literal", "Optional", "Union", "Callable", "Type", "Final", "Annotated", "Generic",
+    "Protocol", "Never", "Any", "tuple", "type", "List", "dict", "list"])
 CLASHING_VALUE_NAMES = ["match", "case", "type", "print", "list", "str", "id", "nothing",
                         "Any", "Optional", "Union", "Callable", "typing", "builtins",
                         "collections", "enum", "property", "staticmethod", "classmethod",
                         "self", "cls", "None_", "_", "__all__", "TypeVar_", "int", "tuple",
-                        "Literal", "Generic", "Self", "abstractmethod", "overload", "final"]
+                        "Self", "abstractmethod"]
 STRING_LITERALS = ["", "a", "b c", "it's", 'say "x"', "it's \"x\"", "back\\slash", "new\nline",
                    "tab\t", "café", "中", "]", "[", ",", "Literal[1]", "None", "#c", "b'x'",
                    "'", '"', "\\", "a, b", "{}", "%s", "\x00", "\U0001f600"]
@@ -410,6 +413,8 @@ class _Gen:
     plain_bases = [c for c in self.classes if c.kind in ("plain", "generic", "abc") and
                    "." not in c.name]
     r = rng.random()
+    if name in SPECIAL_FORM_NAMES:
+      r = max(r, 0.34)    # a *generic* local class called Literal/Type/... is not generated
     if r < 0.25:
       n = rng.choice([1, 1, 2])
       template_tvs = []
